@@ -52,10 +52,16 @@ META = {
                 bounds=dict(COMMON_BOUNDS, sizes='nlon 2-3, nz 2-3, nb 1-2', outside='CUF / low-level pipelines, anything needing an accelerator compiler'),
                 assumptions=COMMON_ASSUME),
     'C38': dict(rule=RULE + '. Families: the C37 call trees that have temporaries x {V-hoist, S-hoist, stack direct-index (V/S), stack Fortran-pointer, raw stack}; '
-                'entry = driver; "enough storage on every path" = no out-of-bounds trap on the stack/hoisted arrays for any input.',
+                'entry = driver; "enough storage on every path" = no out-of-bounds trap on the stack/hoisted arrays for any input; '
+                'plus TemporariesPoolAllocatorTransformation (with and without check_bounds) driven by the real Scheduler on 5 call trees '
+                '(same kernel called twice with different sizes in both orders, three calls, two different callees, 4-byte / logical '
+                'temporaries): the interpreter follows the integer address arithmetic of the Cray pointers (LOC, C_SIZEOF, ISHFT; a pointee '
+                'is given the region [address, address + size)), a region that leaves the scratch array or overlaps a live region traps, '
+                'the generated STOP aborts; replay with gfortran -fcray-pointer -fsanitize=address.',
                 functions=['SCCHoistTemporaryArraysTransformation', 'HoistTemporaryArraysAnalysis', 'DirectIdxStackTransformation', 'FtrPtrStackTransformation',
-                           'TemporariesRawStackTransformation'],
-                bounds=dict(COMMON_BOUNDS, sizes='nlon 2-3, nz 2-3, nb 1-2', outside='Cray-pointer / C_F_POINTER / LOC based allocators (reported per run as not encoded), pool allocator'),
+                           'TemporariesRawStackTransformation', 'TemporariesPoolAllocatorTransformation (Cray-pointer variant)'],
+                bounds=dict(COMMON_BOUNDS, sizes='nlon 2-3, nz/klev 2-3, nb 1-2', outside='cray_ptr_loc_rhs / C_F_POINTER variants of the pool allocator, '
+                            'element sizes other than gfortran x86-64 defaults'),
                 assumptions=COMMON_ASSUME),
 }
 
